@@ -454,6 +454,13 @@ def main():
         graph_stats, gfails = kgraph.run(tier, seed)
         fails.extend(gfails)
 
+    # K-label for C19
+    label_stats = None
+    if pid == "C19":
+        import klabel
+        label_stats, lfails = klabel.run(tier, seed)
+        fails.extend(lfails)
+
     m2_stats = None
     if pid in M2_PROPS:
         m2fails, m2_stats = m2_phase(pid, tier, seed)
@@ -496,6 +503,13 @@ def main():
             path = os.path.join(VERIF, "replays", "%s-graph-%s.json" % (pid, reported))
             json.dump(dict(f, property=pid, broken="K-graph"), open(path, "w"), indent=1)
             violations.append((path, ""))
+            reported += 1
+            continue
+        if f["kind"] == "label":
+            path = os.path.join(VERIF, "replays", "%s-label-%s.json" % (pid, reported))
+            json.dump(dict(f, property=pid, broken="K-label"), open(path, "w"), indent=1)
+            violations.append((path, "" if f.get("judged") else " no-failing-input-found"))
+            log("  label: %s" % f["descr"])
             reported += 1
             continue
         kind = f["kind"]
@@ -556,6 +570,8 @@ def main():
     }
     if graph_stats:
         cov["k_graph"] = graph_stats
+    if label_stats:
+        cov["k_label"] = label_stats
     if m2_stats:
         cov["generated_source_mode"] = m2_stats
     if pr.get("leanchecker"):
